@@ -7,6 +7,10 @@ Gaussian-integer alphabet against the textbook definition. Dtype axis: the same 
 float64 / complex64 / complex128 arrays (every dtype that holds the values, every ordered pair of dtypes for the two arguments of
 MAC and MSF), on all integer vectors over {-2..2}^n, integer "table" vectors with 3..64 components, Gaussian-integer and payload
 complex vectors, all ordered pairs of 2-shape sets over a pool of six 3-component shapes, and complex sets against integer tables.
+Purity: on EVERY call made here the array arguments are compared before/after (bytes, dtype, shape, strides, the viewed array).
+Call sequences: every ordered pair (payload shapes: every ordered triple) of the five indicators called one after the other on the
+same array objects (shape v, another shape a, w = c v - all built before the first call; 1-D arrays of every admissible dtype; sets in
+C order, Fortran order and as strided views, with column views), the last call judged against the reference from the pristine values.
 """
 import itertools
 
@@ -21,15 +25,20 @@ TECHNIQUE = ("bounded-exhaustive enumeration of mode shapes over small integer a
              "all Gaussian-integer vectors, all pairs of 2-shape sets) and payload vectors, times the full catalogue of "
              "complex scales, with an oracle (bounds, invariance, exact collinear values, MSF = c) on every element; plus the full "
              "lattice (shape or pair of shape sets) x (dtype of the first argument) x (dtype of the second argument) over int64, int32, "
-             "float32, float64, complex64, complex128 with the reference computed in complex128 from the same values")
+             "float32, float64, complex64, complex128 with the reference computed in complex128 from the same values; plus, on every call, a "
+             "before/after comparison of the array arguments, and the full lattice (shape) x (ordered pair / triple of indicators) of call "
+             "sequences on the same array objects, (set of shapes) x (memory layout) x (ordered pair of set / column-view operations)")
 LEVEL_TEXT = ("every vector of the stated alphabets under every scale of the catalogue is evaluated on the real functions; "
               "input classes (collinear, constant base vector, zero components, isotropic) are decided from the input; on the dtype axis "
-              "every admissible dtype (pair) of every listed shape / pair of sets is evaluated, admissibility decided from the values")
+              "every admissible dtype (pair) of every listed shape / pair of sets is evaluated, admissibility decided from the values; every "
+              "ordered pair of indicators (triples on payload shapes) is executed as a call sequence on the same array objects of every listed "
+              "shape and set, and every library call of the check is followed by a comparison of its arguments with their state before the call")
 RULE = ("a case is one (vector, complex scale, raw/unit-normalised) evaluation of the five indicators, or one ordered pair "
         "of 2-shape sets for the MAC matrix; non-trivial = the vector has at least two non-zero components and the scale "
         "actually changes it (not the factor 1 on the raw vector), respectively the two sets differ; distinct by lattice index; "
         "on the dtype axis a case is one (shape or pair of sets, dtype, dtype) evaluation, non-trivial = at least one array is not "
-        "float64/complex128")
+        "float64/complex128; a call-sequence case is one (shape or set, form / dtype / memory layout, ordered tuple of indicators) "
+        "executed on the same array objects, non-trivial = the shape has at least two non-zero components (sets: always)")
 ASSUMPTIONS = [
     "MAC reference value is the textbook definition |x^H a|^2 / ((x^H x)(a^H a)) computed with numpy sums",
     "MSF domain: vectors with |v^T v| >= 0.2 ||v||^2 only (the library's MSF is the bilinear ratio v2^T v1 / v1^T v1 pinned by "
@@ -50,6 +59,17 @@ ASSUMPTIONS = [
     "dtype axis, single-precision input (float32 / complex64 in either argument): single-precision tolerances - MAC/MPC/MCF 2e-6 "
     "(16 eps32), MPD 2e-3 (sqrt(2 * 16 eps32)), MSF 1e-6 relative, bounds with 1e-6 slack; every other dtype combination (int64, "
     "int32, float64, complex128) is judged with the double-precision tolerances above",
+    "purity: an indicator is a function of the VALUES of its arguments - the caller's arrays (the objects handed over and, for views, the "
+    "arrays they are views of) hold the same bytes, dtype, shape and strides after the call; judged on every call the check makes",
+    "call sequences: the arrays v, a (another shape: v rolled by one place with 3.5+0.5i added to the first entry) and w = c v are built before "
+    "the first call and the same objects are handed to every call of the sequence (MAC(v, a), MPC(v), MPD(v), MCF(v), MSF(v, w)); the last call "
+    "is judged against the value given by the pristine values: MAC the textbook definition, MCF its closed form, MSF = c (1e-12 relative, c "
+    "rotating through the catalogue of real factors; same domain guard as above), MPC / MPD the library's own value on a fresh copy of the "
+    "pristine shape (that value is judged by the single-call part); same tolerances as the single-call judgements; MPC of constant shapes "
+    "(known finding) and MPD of isotropic shapes are not judged in a sequence either; sequences containing MSF are skipped outside MSF's domain",
+    "call sequences on sets: X (n x k), A (rows of X rolled by one, columns reversed, 3.5+0.5i added to the first row), W = X * (real factor per "
+    "column) as C-ordered, Fortran-ordered and strided-view arrays; operations MAC(X, A), MCF(X), MSF(X, W) and MAC/MPC/MPD/MCF/MSF on the column "
+    "view X[:, k-1]; complex payload sets are drawn with phases within +-0.5 rad so that they lie inside MSF's domain",
     "dtype axis: MPC/MPD of a non-collinear complex64 shape are compared with the library's own value on the complex128 copy of the "
     "same values (that value is judged by the vector route); MCF and MAC against closed forms; collinear shapes against 1 / 0 / 0 / 1",
 ]
@@ -345,6 +365,7 @@ def judge_vector(t, seed, fam, spec, vid=None):
         t.outcomes[f"BAD:{ind}:{kind}"] += 1
 
     ref = {}
+    ref7n = {}
     for si, normed, phi in variants_of(phi0):
         extra = {"scale_index": si, "normalised": normed}
         t.evaluations += 4
@@ -422,6 +443,8 @@ def judge_vector(t, seed, fam, spec, vid=None):
         if si == -1:
             ref = dict(vals)
             continue
+        if si == 7 and normed:
+            ref7n = dict(vals)          # single-call values of the unit-normalised form used by the call sequences below
         for ind, r in vals.items():
             if ind not in ref:
                 t.not_judged += 1
@@ -481,8 +504,8 @@ def judge_vector(t, seed, fam, spec, vid=None):
             else:
                 t.err("MSF:rel", abs(r - c) / abs(c))
                 t.outcomes["MSF:ok:" + ("c<0" if c < 0 else "c>0")] += 1
-    # sequences of calls on the same array objects: all ordered pairs of indicators on the raw shape and on the shape scaled and
-    # normalised to a unit component; all ordered triples on the payload shapes
+    # sequences of calls on the same array objects: all ordered pairs of indicators on the raw shape and (all families but the bulk of
+    # real integer vectors with 4 components) on the shape scaled and normalised to a unit component; all ordered triples on payload shapes
     a0 = np.roll(phi0, 1)
     a0[0] += 3.5 + 0.5j
     vtv0 = abs(np.sum(phi0 * phi0))
@@ -492,21 +515,17 @@ def judge_vector(t, seed, fam, spec, vid=None):
     forms = [("raw", phi0)]
     if not (fam == "int-real" and len(phi0) >= 4):
         forms.append(("unit-normalised", p7 / p7[int(np.argmax(np.abs(p7)))]))
+    single = [ref, ref7n]           # MPC / MPD of the two forms from one call on a fresh copy (made and judged in the loop above)
     for fi, (label, v0) in enumerate(forms):
-        ref = {"MAC": mac_ref(v0, a0), "MCF": mcf_ref(v0)}
+        sref = {"MAC": mac_ref(v0, a0), "MCF": mcf_ref(v0)}
         for ind in ("MPC", "MPD"):
             if (ind == "MPC" and cls == "constant-base") or (ind == "MPD" and isotropic):
                 continue            # listed known finding / reference direction undefined: value not judged (as above)
-            t.evaluations += 1
-            try:
-                r = real_value(getattr(G, ind)(v0.copy()))
-            except Exception:
-                continue            # reported by the single-call judgements above
-            if r is not None:
-                ref[ind] = r
+            if ind in single[fi]:
+                sref[ind] = single[fi][ind]
         lengths = (2, 3) if (fam in ("pay-real", "pay-cplx") and fi == 0) else (2,)
         ids = None if vid is None else _CFG.get("seq_off", 0) + vid * 512 + fi * 256
-        run_sequences(t, viol, lengths, v0, a0, lambda c, v0=v0: c * v0, ref, tol, msf_ok, label, len(phi0) + nnz + 7 * fi,
+        run_sequences(t, viol, lengths, v0, a0, lambda c, v0=v0: c * v0, sref, tol, msf_ok, label, len(phi0) + nnz + 7 * fi,
                       ids if nnz >= 2 else None)
     t.outcomes["vector-judged"] += 1
 
@@ -1316,8 +1335,8 @@ def explore(ctx):
     ctx.bounds["call sequences"] = {
         "objects": "v (shape), a (another shape), w = c v, built before the first call and handed to every call of the sequence as the same objects",
         "indicators": INDS,
-        "vectors": "every vector of the vector route in two forms (raw; scaled by 1e-3 e^{0.7i} and normalised to a unit component): all 25 ordered "
-                   "pairs; payload vectors (raw form) also all 125 ordered triples; the last call is judged",
+        "vectors": "every vector of the vector route as it is, and (all but the real integer vectors with >= 4 components) scaled by 1e-3 e^{0.7i} and "
+                   "normalised to a unit component: all 25 ordered pairs; payload vectors (raw form) also all 125 ordered triples; the last call is judged",
         "c": f"rotates through {REAL_C}",
         "dtype axis": "dt-table and dt-pay shapes in every admissible dtype, all 25 ordered pairs, c = 3",
         "sets": {"sets": f"all {len(DT_POOL) ** 2} ordered pairs of the pool shapes (3 x 2) and complex payload sets (n, k) in {SEQ_PAY_NK}",
@@ -1334,6 +1353,13 @@ def explore(ctx):
                 "dtype:MSF:outside-domain",
                 *[f"dtype:{ind}:{cls}:ok" for ind in ("MAC", "MSF", "MCF", "MPC", "MPD") for cls in ("int-typed", "single", "double")],
                 *[f"dtype:{r}:{cls}:ok" for r in ("sets", "table") for cls in ("int-typed", "single", "double")])
+    ctx.require(*[f"purity:{ind}:arguments-unchanged" for ind in INDS],
+                *[f"seq:{a}>{b}:ok" for a in INDS for b in INDS],
+                *[f"seq:length-3:last={ind}:ok" for ind in INDS],
+                "seq:skipped(MSF outside its domain)",
+                *[f"dtype:seq:{cls}:length-2:last={ind}:ok" for cls in ("int-typed", "single", "double") for ind in INDS],
+                "seq-sets:judged", *[f"seq-sets:{lay}:ok" for lay in SEQ_LAYOUTS],
+                *[f"seq-sets:first={op}:ok" for op in SEQ_SET_OPS], *[f"seq-sets:second={op}:ok" for op in SEQ_SET_OPS])
 
 
 def _cplx(x):
